@@ -510,3 +510,20 @@ def forwarded_in_same_turn(tree, rep, rule, rel, sites_, why):
                   bool(direct) and not indirect, site(indirect[0] if indirect else fn, rel), key="%s:%s.%s:same-turn" % (rule, cls, fname),
                   what="%s.%s no longer calls %s itself in the turn the event arrives (it is handed to a scheduler or wrapped in a closure): %s"
                        % (cls, fname, callee, why))
+
+
+def no_yield_between(tree, rep, rule, rel, cls, fname, first_call, then_calls, why):
+    """in an inlineCallbacks body, no yield point lies on a path from the call that makes the object visible to the rest of the system
+    (`first_call`) to the calls that complete it (`then_calls`): whatever arrives for it in a turn in between finds it half-built."""
+    fn = tree.func(rel, cls, fname)
+    g = build(fn)
+    a = g.call_nodes(lambda c: isinstance(c.func, ast.Attribute) and c.func.attr == first_call)
+    b = g.call_nodes(lambda c: isinstance(c.func, ast.Attribute) and c.func.attr in then_calls)
+    if not a or not b:
+        raise AnalysisError("%s.%s: %s / %s not found" % (cls, fname, first_call, then_calls))
+    ys = [n for n in g.stmt if any(isinstance(x, (ast.Yield, ast.YieldFrom, ast.Await)) for e in g.head_expr(n) for x in ast.walk(e))]
+    after_a = g.reach(a, include_start=False, explicit_only=True)
+    bad = [y for y in ys if y in after_a and y not in a and (set(b) & g.reach([y], explicit_only=True))]
+    rep.check(rule, "%s.%s: no yield point between %s() and %s (%d yield points in the function)" % (cls, fname, first_call, "/".join(then_calls), len(ys)),
+              not bad, site(g.stmt[bad[0]] if bad and isinstance(g.stmt[bad[0]], ast.AST) else fn, rel), key="%s:%s.%s:no-yield-in-window" % (rule, cls, fname),
+              what="%s.%s gives up the reactor between %s() and %s: %s" % (cls, fname, first_call, "/".join(then_calls), why))
